@@ -21,7 +21,7 @@ import (
 
 func main() {
 	src := flag.String("src", "/repo/gconfig/config.go", "")
-	out := flag.String("out", "/verif/lean/Generated/GConfigKey.lean", "")
+	out := flag.String("out", "../lean/Generated/GConfigKey.lean", "relative to the harness directory (go run -C harness)")
 	flag.Parse()
 	fset := token.NewFileSet()
 	f, err := parser.ParseFile(fset, *src, nil, 0)
